@@ -6,6 +6,8 @@ import sys
 
 sys.path.insert(0, os.path.join(os.path.dirname(os.path.abspath(__file__)), "..", "lib"))
 import enumlib  # noqa: E402
+import sched  # noqa: E402
+import server_common  # noqa: E402
 import vlib  # noqa: E402
 
 
@@ -17,7 +19,7 @@ def main():
     tier = vlib.tier_arg(sys.argv)
     rep = vlib.Report("C18", tier, "model_checking")
     try:
-        b = enumlib.build("serverlib-enum", "server/lib", files("serverlib"))
+        b = bsrv = enumlib.build("serverlib-enum", "server/lib", files("serverlib"))
         res = enumlib.run(b, "TestVerifEnumC18", tier, 60, nshards=4)
         enumlib.report(rep, res, "explicit-state search over Set sequences on the real ring map to a fixpoint of canonical states, and enumeration of a client_ip grammar against a net/netip reference")
         b = enumlib.build("proxylib-enum", "proxy/lib", files("proxylib"))
@@ -30,7 +32,30 @@ def main():
         rep.coverage["explanation"] = "every transition is a Set executed on a fresh real clientIDMap (replay of the shortest history + one operation); Get is compared with the reference in every state"
     except vlib.EngineError as e:
         rep.engine_errors.append(str(e))
-    rep.assumptions += ["attribution of carriers to sessions under interleaving is covered by the C05 harness (RemoteAddr of accepted connections is read from the same map)"]
+    # concurrent carriers (Set) and sessions (Get) on a ring small enough to wrap during a Get
+    try:
+        U = "all interleavings up to Mazurkiewicz equivalence (DPOR + sleep sets)"
+        passes = [{"harness": "c18-ringconc", "cfg": {"setters": "2"}, "budget_s": 20, "label": "ring of capacity 1-2, 2 carriers storing other clients (one also re-storing A) x 2 sessions looking up A and B: " + U},
+                  {"harness": "c18-ringconc", "cfg": {"setters": "3"}, "budget_s": 30, "label": "the same with 3 carriers: " + U}]
+        summary, tot, samples, exh = sched.run_passes(rep, server_common.build(), passes, 60)
+        rep.coverage["concurrent_ring"] = {"passes": summary, "executions": tot["executions"], "transitions": tot["transitions"], "exhaustive": exh}
+        rep.coverage["states"] += tot["states"]
+        rep.coverage["transitions"] += tot["transitions"]
+        rep.coverage["traces_validated_against_impl"] += tot["executions"]
+    except vlib.EngineError as e:
+        rep.engine_errors.append(str(e))
+    # attribution on the real stack: the sessions section of the C05 tier-2 harness (client address at
+    # accept time and asked again later, carriers from different addresses)
+    try:
+        res3 = enumlib.run(bsrv, "TestVerifEnumC05T2", tier, 100, env_extra={"VERIF_T2_ONLY": "sessions"})
+        for f in res3["findings"]:
+            if f["sig"].startswith("accept:"):
+                rep.finding(f["sig"], f["msg"], {"input": f["input"], "kind": "real-stack scenario (loopback WebSocket carriers, kcp-go, smux)", "test": "TestVerifEnumC05T2"})
+        rep.coverage["real_stack_sessions"] = {"scenarios": res3["evaluations"], "completed": res3["exhaustive"]}
+        rep.coverage["traces_validated_against_impl"] += res3["evaluations"]
+    except vlib.EngineError as e:
+        rep.engine_errors.append(str(e))
+    rep.assumptions += ["attribution of carriers to sessions under interleaving is explored by the C05 tier-1 harness; here the real listener is driven over loopback (real time: byte/count/address comparisons only)"]
     rep.finish()
 
 
